@@ -1,7 +1,7 @@
 """C10: request strings can never change the structure of SQL sent to ClickHouse.
 
 spec/query/Escape.tla transcribes StringVal.String (the ordered replace table), doLike (LIKE escaping, then quoting), ClickHouse's
-string-literal automaton and LIKE pattern decoding over an alphabet of 19 character classes; MC_Escape.tla lets TLC check
+string-literal automaton and LIKE pattern decoding over an alphabet of 20 character classes; MC_Escape.tla lets TLC check
 for ALL strings up to length 4 (quick) / 5 (thorough) that the quoted text is exactly one literal decoding to the string
 (EscRoundTrip), that the LIKE literal is exactly one literal (LikeStructure), and (in a run of its own) that it means
 ANY s ANY (LikeValue).  Every string up to length 3 plus a seeded sample of the longer ones is exported and replayed by cmd/c10:
@@ -55,7 +55,7 @@ def witness(out):
         return None
     names = re.findall(r'"([a-z0-9]+)"', m.group(1))
     code = {'bs': 'B', 'sq': 'Q', 'dq': 'D', 'nul': 'Z', 'nl': 'N', 'cr': 'R', 'bsp': 'P', 'tab': 'T', 'sub': 'S', 'pct': '%',
-            'us': '_', 'dash': '-', 'slash': '/', 'star': '*', 'hash': '#', 'semi': ';', 'hi': 'H', 'bad': 'X', 'a': 'a'}
+            'us': '_', 'dash': '-', 'slash': '/', 'star': '*', 'hash': '#', 'semi': ';', 'hi': 'H', 'bad': 'X', 'a': 'a', 'bt': 'K'}
     return ''.join(code[n] for n in names)
 
 
@@ -92,7 +92,7 @@ def run(tier):
         # every exported string is a distinct case; add TLC's own witnesses (they are short, so normally already there)
         have = {c['s'] for c in cases}
         extra = [w for w in (spec_witness, like_witness) if w is not None and w not in have]
-        expected_exported = sum(19 ** k for k in range(4))
+        expected_exported = sum(20 ** k for k in range(4))
         if not spec_viol and len([c for c in cases if len(c['s']) <= 3]) != expected_exported:
             raise vlib.Infra('TLC exported %d strings of length <= 3, expected %d' % (len([c for c in cases if len(c['s']) <= 3]), expected_exported))
         # ---- the driver, sharded over processes
